@@ -923,8 +923,12 @@ class ExecBase:
             for test in g.ifs:
                 cond = z3.And(cond, self.truth(self.eval(test, sub), sub, node))
             val = self.evalv(node.value, sub).any()
-            if len(self.pending) != npend or len(sub.pc) != len(st.pc):
+            if len(self.pending) != npend:
                 self.oos("comprehension element may raise", node)
+            if len(sub.pc) != len(st.pc):
+                # facts assumed while evaluating the element for an ARBITRARY key (callee postconditions): they hold for every key
+                for fact in sub.pc[len(st.pc):]:
+                    st.assume(z3.ForAll([kc], z3.Implies(z3.And(z3.Select(src, kc) != ABSENT, cond), fact)))
             # {k: v for k, v in X.items() if k != "c"}  ==  X without "c"   (store form: models are found)
             if (isinstance(node.value, ast.Name) and node.value.id == vname and len(g.ifs) == 1
                     and isinstance(g.ifs[0], ast.Compare) and len(g.ifs[0].ops) == 1
